@@ -93,7 +93,7 @@ def install(reg):
             I.path.ghost.setdefault("constructed", []).append((cname, o, dict(k), list(a)))
             return o
         reg.handlers[key] = new
-    for _c in ("CompositeTransform", "FlowPreconditioningTransform"):
+    for _c in ("CompositeTransform", "FlowPreconditioningTransform", "FlowTransform", "ZukoFlow", "ZukoFlowMatching", "FlowJax"):
         mk_new(_c)
 
     reg.sampler_sample = sampler_sample
@@ -879,6 +879,13 @@ class GetFlowWrapperModel(Contract):
     def model(self, I, info, bound, args, kwargs, node):
         backend = kwargs.get("backend", args[0] if args else Str("zuko"))
         fm = kwargs.get("flow_matching", args[1] if len(args) > 1 else B(False))
+        if I.path.ghost.get("record_transform_construction") and isinstance(backend, Str) and backend.v in ("zuko", "flowjax"):
+            # inside the InitFlow contract: the real class (its constructor's signature is inspected; construction itself is recorded, see mk_new)
+            if backend.v == "zuko":
+                cls = "ZukoFlowMatching" if I.is_true(fm) else "ZukoFlow"
+            else:
+                cls = "FlowJax"
+            return Tup([ClassRef(cls), Sym(z3.Const("flow_backend_namespace", Misc), "ns")])
         return Tup([Obj("FlowClassStub", {"backend": backend, "flow_matching": fm}), Sym(z3.Const("flow_backend_namespace", Misc), "ns")])
 
     def usable_at_call(self, I, q):
@@ -1225,3 +1232,63 @@ class FitPreconditioning(FitPreconditioningModel):
         if fits:
             p.prove(arr_eq_goal(fits[0][1], g["x"]), f"{q}:C11:C05:the transform is fitted to the points given to this call {tag}")
         p.prove(arr_eq_goal(r, rowwise("TFWDX", TFWD_X, g["x"], "row")) if isinstance(r, Arr) else z3.BoolVal(False), f"{q}:C05:returns the given points in the fitted transform's space {tag}")
+
+
+class InitFlow(Contract):
+    qual = "aspire:Aspire.init_flow"
+    properties = ("C03", "C04", "C13", "C15")
+    doc = ("the proposal flow is built with a data transform that covers *every* parameter with the bounds stored under its name (periodic parameters are "
+           "bounded parameters of the proposal too: the flow's transform has no periodic stage, so dropping their bounds lets the proposal put mass outside "
+           "the prior's support), the instance's transform options, eps, dtype and device, in the back end's namespace; the flow class of the chosen back end "
+           "gets the instance's dims, device, dtype, that transform, and the flow options")
+
+    def shapes(self):
+        return [{"backend": b, "periodic": pp} for b in ("zuko", "flowjax") for pp in (0, 1)]
+
+    def must_return(self, shape):
+        return True
+
+    def setup(self, I, shape):
+        names = ["mass", "chi"]
+        bounds = {nm: base_arr(f"bounds_of_{nm}", "real", z3.IntVal(2)) for nm in names}
+        a = Obj("Aspire", {"dims": IV(2), "parameters": PyList([Str(nm) for nm in names]), "periodic_parameters": PyList([Str("chi")]) if shape["periodic"] else NONE,
+                           "prior_bounds": PyDict(dict(bounds)), "bounded_to_unbounded": B(z3.Bool("cfg_b2u")), "bounded_transform": Str("probit"),
+                           "flow_matching": B(False), "flow_backend": Str(shape["backend"]), "flow_kwargs": PyDict({"hidden_features": IV(z3.Int("hidden"))}), "device": NONE,
+                           "xp": Sym(z3.Const("aspire_xp", Misc), "ns"), "dtype": Sym(z3.Const("aspire_dtype", Misc), "dtype"), "eps": R(z3.Real("cfg_eps")), "_flow": NONE})
+        I.path.ghost["record_transform_construction"] = True
+        return Pre(a, [], {}, ghost={"a": a, "names": names, "bounds": bounds, "shape": shape})
+
+    def post(self, I, pre, r):
+        p, g = I.path, pre.ghost
+        q = self.qual
+        a, sh = g["a"], g["shape"]
+        tag = f"[{sh['backend']}, {'one parameter periodic' if sh['periodic'] else 'no periodic parameter'}]"
+        built = p.ghost.get("constructed", [])
+        trs = [c for c in built if c[0] == "FlowTransform"]
+        fls = [c for c in built if c[0] in ("ZukoFlow", "ZukoFlowMatching", "FlowJax")]
+        p.prove(z3.BoolVal(len(trs) == 1 and len(fls) == 1 and fls[0][0] == {"zuko": "ZukoFlow", "flowjax": "FlowJax"}[sh["backend"]]),
+                f"{q}:C03:C13:one data transform and one flow of the chosen back end are built {tag}")
+        if not (trs and fls):
+            return
+        tk, fk = trs[0][2], fls[0][2]
+        pb = tk.get("prior_bounds")
+        for nm in g["names"]:
+            ref = g["bounds"][nm]
+            v = ref if pb is a.f["prior_bounds"] else (pb.d.get(nm) if isinstance(pb, PyDict) else None)
+            if v is ref:
+                goal = z3.BoolVal(True)
+            elif isinstance(v, (Tup, PyList)) and len(v.items) == 2 and all(isinstance(t, Z) for t in v.items):
+                goal = z3.And(to_real(v.items[0]) == ref.at(z3.IntVal(0)), to_real(v.items[1]) == ref.at(z3.IntVal(1)))
+            elif isinstance(v, Arr):
+                goal = z3.And(v.at(z3.IntVal(0)) == ref.at(z3.IntVal(0)), v.at(z3.IntVal(1)) == ref.at(z3.IntVal(1)))
+            else:
+                goal = z3.BoolVal(False)
+            p.prove(goal, f"{q}:C03:C04:the proposal's data transform gets, for parameter `{nm}`, the finite bounds stored under that name (periodic or not) {tag}")
+        for k, want in (("parameters", a.f["parameters"]), ("bounded_to_unbounded", a.f["bounded_to_unbounded"]), ("bounded_transform", a.f["bounded_transform"]),
+                        ("eps", a.f["eps"]), ("dtype", a.f["dtype"]), ("device", a.f["device"])):
+            p.prove(z3.BoolVal(tk.get(k) is want), f"{q}:C03:C04:C15:the data transform is built with the instance's `{k}` {tag}")
+        p.prove(z3.BoolVal(isinstance(tk.get("xp"), Sym) and tk["xp"].e.eq(z3.Const("flow_backend_namespace", Misc))), f"{q}:C15:the data transform works in the back end's namespace {tag}")
+        p.prove(z3.BoolVal(fk.get("data_transform") is trs[0][1] and fk.get("dims") is a.f["dims"] and fk.get("dtype") is a.f["dtype"] and fk.get("device") is a.f["device"]),
+                f"{q}:C03:C15:the flow is built for the instance's dims / dtype / device around that data transform {tag}")
+        p.prove(z3.BoolVal(fk.get("hidden_features") is a.f["flow_kwargs"].d["hidden_features"]), f"{q}:C13:C20:the flow options of the instance are handed to the flow's constructor {tag}")
+        p.prove(z3.BoolVal(a.f.get("_flow") is fls[0][1]), f"{q}:C03:the instance holds the flow that was built {tag}")
